@@ -73,6 +73,10 @@ CLAIMED = {
    text="maximal_cliques (exact set, each once), dsatur_coloring (proper, colours 0..k-1, k<=2 on bipartite), greedy_feedback_arc_set (rest acyclic), dag_to_toposorted_adjacency_list + dag_transitive_reduction_closure (exact reduction and closure by reachability), all_simple_paths (exact set within bounds, each once on simple graphs), steiner_tree (tree inside the graph, terminals, leaves, weight <= 2 OPT with OPT by brute force), page_rank (non-negative, sums to 1, identical per abstract node across encodings/numberings) judged by TLC against OracleC20.tla.",
    note="Trusted: TLC, OracleC20.tla. Inputs bounded (n<=5/6). PageRank compared at 1e-6 scale with tolerance; convergence not decided. Recorded finding: page_rank on index spaces with holes. Fixed: dsatur empty graph, StableGraph is_adjacent (found through maximal_cliques).",
    design="4/C20", technique="TLA+ oracle spec evaluated by TLC on recorded (input, output) pairs"),
+ "C17": dict(
+   text="Graph and StableGraph histories with node and edge vacancies are followed by serde round trips through JSON and bincode, into the same type and across Graph <-> StableGraph, by 16 kinds of structural JSON mutation (dropped / retyped fields, endpoints out of range / at max / at a declared hole, duplicated, unsorted or out-of-bound holes, added / removed nodes, nulled / truncated / duplicated edges, flipped edge property) and 5 kinds of byte mutation of bincode streams, and by further use of whatever came back. TLC validates against MGTrace.tla: the JSON document equals the wire format WireDoc of the abstract state; an unmodified stream loads to the identical graph (same indices, vacancies up to the bounds; a stream with vacancies is refused as a Graph); a mutated stream gives Err or a well-formed graph (AdoptOK) whose later behaviour stays inside GraphAbs/StableAbs; a panic is never accepted.",
+   note="Trusted: TLC incl. its Json reader on the transcoded document, harness recorder. Weights i32; index widths u8/u16/u32/Ix4/Ix7; bincode bytes opaque. GraphMap round trips are in the C03 driver. Fixed: edge incident to a declared hole accepted. Recorded finding: a completely full graph (max() elements) does not round-trip; the repair contradicts the existing test from_json_edges_too_big.",
+   design="4/C17", technique="TLA+ spec + trace validation of real executions"),
  "C19": dict(
    text="TLC exhaustively model-checks UnionFindAbs (equivalence = connectivity generated by the unions; MaxN<=4/5) and UnionFindImpl (parent/rank forest invariants, refinement to Abs); a TLC-generated transition cover of UnionFindImpl plus exhaustive and seeded random histories (all index widths, u8 to 256 elements, out-of-range arguments, panicking variants) are executed on the real UnionFind and every recorded trace is validated by TLC against UnionFindAbs.",
    note="Trusted: TLC + CommunityModules Json, the harness recorder. Exhaustive within MaxN only; beyond, exploration of recorded histories. Memory safety of get_unchecked not decided (only the index arithmetic guarding it).",
